@@ -159,17 +159,18 @@ func VerifC19_Broadcast() {
 	var gossiped [][]byte
 	nodes := []*memberlist.Node{{Name: "p1"}, {Name: "p2"}, {Name: "p3"}}
 	npeers := 1 + vfChoice("peers", 3)
-	delivered := map[string]int{}
+	delivered := map[string][][]byte{}
 	failFirst := vfBool("firstPeerFails")
 	stopc := make(chan struct{})
 	c := NewChannel("sil",
+		// memberlist keeps the slices it is handed until they have been sent
 		func(b []byte) { gossiped = append(gossiped, b) },
 		func() []*memberlist.Node { return nodes[:npeers] },
 		func(n *memberlist.Node, b []byte) error {
 			if failFirst && n.Name == "p1" {
 				return errors.New("unreachable")
 			}
-			delivered[n.Name]++
+			delivered[n.Name] = append(delivered[n.Name], b)
 			return nil
 		},
 		promslog.NewNopLogger(), stopc, prometheus.NewRegistry())
@@ -178,21 +179,58 @@ func VerifC19_Broadcast() {
 	if big {
 		size = 4 * MaxGossipPacketSize
 	}
-	c.Broadcast(make([]byte, size))
+	// one update, or two back to back (the second of the same size or smaller)
+	two := vfBool("twoUpdates")
+	first := make([]byte, size)
+	first[0] = '1'
+	c.Broadcast(first)
+	size2 := size
+	if two {
+		if vfBool("secondSmaller") {
+			size2 = size - 3
+		}
+		second := make([]byte, size2)
+		second[0] = '2'
+		c.Broadcast(second)
+	}
 	vfAdvance(1) // let the sender goroutines run until everything is blocked
-	if !big {
-		vfAssert("small-update-gossiped-once", len(gossiped) == 1 && len(delivered) == 0)
+	payload := func(b []byte) (byte, int) {
 		var p clusterpb.Part
-		vfAssert("gossip-wraps-key", proto.Unmarshal(gossiped[0], &p) == nil && p.Key == "sil" && len(p.Data) == size)
+		if proto.Unmarshal(b, &p) != nil || p.Key != "sil" || len(p.Data) == 0 {
+			return 0, -1
+		}
+		return p.Data[0], len(p.Data)
+	}
+	nmsg := 1
+	if two {
+		nmsg = 2
+	}
+	wantTag, wantLen := []byte{'1', '2'}, []int{size, size2}
+	if !big {
+		vfAssert("small-update-gossiped-once", len(gossiped) == nmsg && len(delivered) == 0)
+		for i := 0; i < nmsg && i < len(gossiped); i++ {
+			tag, n := payload(gossiped[i])
+			vfAssert("queued-update-keeps-its-own-content", tag == wantTag[i] && n == wantLen[i])
+		}
 		vfReach("gossiped")
 	} else {
 		vfAssert("oversized-not-gossiped", len(gossiped) == 0)
 		for i := 0; i < npeers; i++ {
-			want := 1
+			got := delivered[nodes[i].Name]
 			if failFirst && i == 0 {
-				want = 0
+				vfAssert("failing-peer-got-nothing", len(got) == 0)
+				continue
 			}
-			vfAssert("oversized-sent-to-every-peer", delivered[nodes[i].Name] == want)
+			vfAssert("oversized-sent-to-every-peer", len(got) == nmsg)
+			// the two updates may overtake each other on the way to one peer, but each
+			// arrives once with its own content
+			seen := map[byte]int{}
+			for _, b := range got {
+				tag, n := payload(b)
+				seen[tag]++
+				vfAssert("delivered-update-has-its-own-content", (tag == '1' && n == size) || (tag == '2' && n == size2))
+			}
+			vfAssert("every-update-delivered-once", seen['1'] == 1 && (!two || seen['2'] == 1))
 		}
 		vfReach("oversized-delivered")
 	}
